@@ -450,8 +450,26 @@ def r13_4(ck):
     ck.require(ok, 'R13.4', ep, ep.node.name,
                'a parallel process is ended', None)
     al = ck.fn('apply_func_to_leaves', 'library.dict_utils')
-    txt = A.unparse(al.node)
-    ok = 'func(root)' in txt and 'apply_func_to_leaves(child, func)' in txt
+    ap = A.params_of(al.node)
+    # the function is applied to a non-dict root; every value of a dict root
+    # is visited recursively with the same function
+    leaf = [c for c in A.calls_in(al.node)
+            if isinstance(c.func, ast.Name) and c.func.id == ap[1]
+            and len(c.args) == 1 and A.is_name(c.args[0], ap[0])]
+    rec = []
+    for c in A.calls_in(al.node, al.name):
+        lp = c
+        while lp is not None and not isinstance(lp, ast.For):
+            lp = getattr(lp, '_parent', None)
+        if lp is None or ap[0] not in A.names_in(lp.iter):
+            continue
+        child = A.arg_of(c, 0, ap[0])
+        fa = A.arg_of(c, 1, ap[1])
+        if A.is_name(fa, ap[1]) and child is not None and (
+                A.names_in(child) & A.names_in(lp.target)
+                or A.unparse(child).startswith(ap[0] + '[')):
+            rec.append(c)
+    ok = bool(leaf) and bool(rec)
     ck.require(ok, 'R13.4', al, al.node.name,
                'apply_func_to_leaves visits every leaf', None)
 
